@@ -54,6 +54,48 @@ class AliveClass:
                         self.members[b.path] = k - 1
                         changed = True
                         break
+        self.positive = {}
+        self._find_positive()
+
+    def _find_positive(self):
+        """functions that answer Ok / Some only for a live handle: every `Ok(..)` / `Some(..)` they can return is built under an aliveness test of
+        their Entity parameter (Storage::insert, Storage::get ..).  The Ok / Some edge of a switch on such a call's result is a guard edge too."""
+        self.positive = {}
+        for b in self.facts.bodies:
+            rt = b.ltype.get(0) or ""
+            if not rt.startswith(("std::result::Result<", "std::option::Option<")) or b.kind == "Closure":
+                continue
+            for k in self._entity_params(b):
+                x = ("param", k, ())
+                defs0 = b.defs().get(0, [])
+                good = bool(defs0)
+                npos = 0
+                for d in defs0:
+                    kind, bb, idx, dp, payload, _ = d
+                    if dp or kind != "stmt" or payload.get("k") != "aggregate":
+                        good = False
+                        break
+                    if payload.get("variant") in ("Ok", "Some"):
+                        npos += 1
+                        ok, edges = self.guarded(b, bb, x)
+                        if not ok or not edges:
+                            good = False
+                            break
+                if good and npos:
+                    self.positive[b.path] = k - 1
+                    break
+
+    def positive_edges(self, body, x_org):
+        out = set()
+        for bb, t in body.calls():
+            c = t["callee"]
+            p = c.get("resolved") if c.get("resolved") in self.positive else c.get("path")
+            if p in self.positive and len(t["args"]) > self.positive[p] and body.arg_origin(bb, self.positive[p]) == x_org:
+                for ve in body.variant_edges(lambda o, bb=bb: o == ("call", bb, ())):
+                    for nm in ("Ok", "Some"):
+                        if nm in ve["edges"]:
+                            out.add(ve["edges"][nm])
+        return out
 
     @staticmethod
     def _entity_params(b):
@@ -77,6 +119,8 @@ class AliveClass:
         """site unreachable once the true-edge of every is_alive(x) test is deleted"""
         edges = self.guard_edges(body, x_org)
         removed = {e["true_edge"] for e in edges}
+        if getattr(self, "positive", None):
+            removed |= self.positive_edges(body, x_org)
         ok = site_bb not in body.reachable(0, removed=removed, unwind=unwind)
         return ok, edges
 
